@@ -188,6 +188,10 @@ func (c20) Plan(tier string, seed int64) []core.Scenario {
 	for i := 0; i < ns; i++ {
 		out = append(out, core.Sc("reader").WithN("len", 13+i%3).WithN("content", i%4).WithN("pat", pSlowMid).WithN("order", i%3).WithN("conc", 1+i%2).WithN("rk", []int{0, 4, 2}[i%3]).WithS("transport", []string{"http", "ws"}[i%2]))
 	}
+	for i := 0; i < 2; i++ {
+		out = append(out, core.Scenario{Kind: "retry-outage", N: map[string]int{"rk": []int{0, 4}[i]}, S: map[string]string{}})
+	}
+	out = append(out, core.Scenario{Kind: "close-live", N: map[string]int{"rk": 4}, S: map[string]string{}})
 	// many small calls in quick succession from several goroutines: the upload and the RPC request of a call
 	// reach the server within microseconds of each other, and calls overlap
 	nb := 3
@@ -365,6 +369,10 @@ var uuidRe = regexp.MustCompile(`[0-9a-f]{8}-[0-9a-f]{4}-[0-9a-f]{4}-[0-9a-f]{4}
 
 func (c20) Run(sc core.Scenario) core.Result {
 	r := core.NewR(sc)
+	if sc.Kind == "retry-outage" || sc.Kind == "close-live" {
+		c20Special(sc, r)
+		return r.Result()
+	}
 	ln := c20Lens[sc.I("len")]
 	content, pat, order, conc, tr := sc.I("content"), sc.I("pat"), sc.I("order"), sc.I("conc"), sc.Str("transport")
 	readerHandler, readerOpt := httpio.ReaderParamDecoder()
